@@ -77,7 +77,9 @@ package zap
 //@ thin
 //@ tags [C16]
 //@ requires vc != nil && muHeld(vc.m) == 0
+//@ wf requires haskey(vc.cache, fieldIDPlus1) ==> mapget(vc.cache, fieldIDPlus1) != nil && mapget(vc.cache, fieldIDPlus1).refs > -0x7fffffffffffffff
 //@ ensures muHeld(vc.m) == 0
+//@ ensures old(haskey(vc.cache, fieldIDPlus1)) ==> old(mapget(vc.cache, fieldIDPlus1)).refs == old(mapget(vc.cache, fieldIDPlus1).refs) - 1 [C16]
 //@ end
 
 //@ func (*vectorIndexCache).incHit
@@ -91,7 +93,11 @@ package zap
 //@ thin
 //@ tags [C16]
 //@ requires vc != nil && muHeld(vc.m) == 0
+//@ wf requires haskey(vc.cache, fieldID) ==> mapget(vc.cache, fieldID) != nil && mapget(vc.cache, fieldID).tracker != nil && mapget(vc.cache, fieldID).refs < 0x7fffffffffffffff
 //@ ensures muHeld(vc.m) == 0
+// a hit hands out the cached index and takes exactly one reference on its entry (given back by the wrapper's close)
+//@ ensures old(haskey(vc.cache, fieldID)) ==> err == nil && idx == old(mapget(vc.cache, fieldID)).index && vmap == old(mapget(vc.cache, fieldID)).vecDocIDMap [C16]
+//@ ensures old(haskey(vc.cache, fieldID)) ==> old(mapget(vc.cache, fieldID)).refs == old(mapget(vc.cache, fieldID).refs) + 1 [C16]
 //@ end
 
 //@ func (*vectorIndexCache).createAndCacheLOCKED returns (idx, vmap, dmap, excl, err)
